@@ -1048,6 +1048,18 @@ impl World {
 use ::whirlpool::state::Whirlpool;
 use anchor_lang::AccountDeserialize;
 
+/// the new range of the `repo` substitution experiment: same lower bound, upper bound one spacing further (nearer at the top)
+fn repo_range(lo: i32, hi: i32, ts: u16) -> (i32, i32) {
+    let ts = ts as i32;
+    if hi + ts <= 443636 - (443636 % ts) {
+        (lo, hi + ts)
+    } else if hi - ts > lo {
+        (lo, hi - ts)
+    } else {
+        (lo, hi)
+    }
+}
+
 // ================================================================================================
 // C15 / C04: account substitution — every account slot of an instruction replaced by a look-alike
 //   H xsub <swap|liq> <slot> <id>
@@ -1065,8 +1077,8 @@ impl World {
         if kind == "grid" {
             // every (instruction, slot, variant) combination on this state: look-alike and the five forgeries
             let mut all = XHopOut { line: "rejected".to_string(), viols: vec![], tags: vec!["sub_grid"] };
-            for kd in ["swap", "liq", "dec", "liqt", "liq1", "dec1"] {
-                for slot in 0..15 {
+            for kd in ["swap", "liq", "dec", "liqt", "liq1", "dec1", "repo"] {
+                for slot in 0..19 {
                     for forge in 0..7 {
                         let sl = slot.to_string();
                         let fg = forge.to_string();
@@ -1091,6 +1103,11 @@ impl World {
                     let (ls, us) = (base.array_start_for(p.tick_lower_index), base.array_start_for(p.tick_upper_index));
                     base.ensure_array(ls);
                     base.ensure_array(us);
+                    if kind == "repo" {
+                        let (_, nhi) = repo_range(p.tick_lower_index, p.tick_upper_index, base.wp().tick_spacing);
+                        let nus = base.array_start_for(nhi);
+                        base.ensure_array(nus);
+                    }
                 }
                 None => return XHopOut { line: "err NoSuchPosition".to_string(), viols, tags },
             }
@@ -1132,7 +1149,7 @@ impl World {
             ];
             (m, d, roles)
         } else {
-            let p = pos0.unwrap();
+            let p = pos0.clone().unwrap();
             let (ls, us) = (base.array_start_for(p.tick_lower_index), base.array_start_for(p.tick_upper_index));
             let mk_pos = |bank: &mut Bank, pool: &anchor_lang::prelude::Pubkey, tag: u8| -> (anchor_lang::prelude::Pubkey, anchor_lang::prelude::Pubkey) {
                 let pmint = k(0x61 + tag, id as u8);
@@ -1150,6 +1167,68 @@ impl World {
             let (o_position, o_ptoken) = mk_pos(&mut fx.bank, &other.pool, 1);
             let (ta_l, ta_u) = (crate::fixture::tick_array_pda(&fx.pool, ls), crate::fixture::tick_array_pda(&fx.pool, us));
             let (ota_l, ota_u) = (crate::fixture::tick_array_pda(&other.pool, ls), crate::fixture::tick_array_pda(&other.pool, us));
+            if kind == "repo" {
+                // reposition_liquidity_v2 (Pinocchio): same lower bound, the upper bound one spacing further (or nearer)
+                let (nlo, nhi) = repo_range(p.tick_lower_index, p.tick_upper_index, base.wp().tick_spacing);
+                let nus = base.array_start_for(nhi);
+                let (nta_u, onta_u) = (crate::fixture::tick_array_pda(&fx.pool, nus), crate::fixture::tick_array_pda(&other.pool, nus));
+                fx.bank.set_program(crate::svm::system_id());
+                let a = fx.bank.get(&position);
+                fx.bank.set(position, a.owner, a.lamports + 4 * TICK_RENT, a.data.clone());
+                let acc = ::whirlpool::accounts::RepositionLiquidityV2 {
+                    whirlpool: fx.pool,
+                    token_program_a: fx.prog_a,
+                    token_program_b: fx.prog_b,
+                    memo_program: anchor_spl::memo::ID,
+                    position_authority: fx.trader,
+                    funder: fx.trader,
+                    position,
+                    position_token_account: ptoken,
+                    token_mint_a: fx.mint_a,
+                    token_mint_b: fx.mint_b,
+                    token_owner_account_a: fx.trader_a,
+                    token_owner_account_b: fx.trader_b,
+                    token_vault_a: fx.vault_a,
+                    token_vault_b: fx.vault_b,
+                    existing_tick_array_lower: ta_l,
+                    existing_tick_array_upper: ta_u,
+                    new_tick_array_lower: ta_l,
+                    new_tick_array_upper: nta_u,
+                    system_program: crate::svm::system_id(),
+                };
+                let m: Vec<Meta> = acc.to_account_metas(None).iter().map(Meta::from).collect();
+                let d = ::whirlpool::instruction::RepositionLiquidityV2 {
+                    new_tick_lower_index: nlo,
+                    new_tick_upper_index: nhi,
+                    method: ::whirlpool::instructions::RepositionLiquidityMethod::ByLiquidity {
+                        new_liquidity_amount: 1000,
+                        existing_range_token_min_a: 0,
+                        existing_range_token_min_b: 0,
+                        new_range_token_max_a: u64::MAX,
+                        new_range_token_max_b: u64::MAX,
+                    },
+                    remaining_accounts_info: None,
+                }
+                .data();
+                let roles = vec![
+                    (fx.pool, other.pool),
+                    (position, o_position),
+                    (ptoken, o_ptoken),
+                    (fx.mint_a, mc.key),
+                    (fx.mint_b, mc.key),
+                    (fx.trader_a, trader_account(&mc.key)),
+                    (fx.trader_b, trader_account(&mc.key)),
+                    (fx.vault_a, other.vault_a),
+                    (fx.vault_b, other.vault_b),
+                    (ta_l, ota_l),
+                    (ta_u, ota_u),
+                    (nta_u, onta_u),
+                    (fx.trader, stranger),
+                    (fx.prog_a, anchor_spl::token_2022::ID),
+                    (anchor_spl::memo::ID, anchor_spl::token::ID),
+                ];
+                (m, d, roles)
+            } else {
             let acc = ::whirlpool::accounts::ModifyLiquidityV2 {
                 whirlpool: fx.pool,
                 token_program_a: fx.prog_a,
@@ -1222,7 +1301,23 @@ impl World {
                 (anchor_spl::memo::ID, anchor_spl::token::ID),
             ];
             (m, d, roles)
+            }
         };
+        // (slot of the position token account, slot of the position authority) of the liquidity instructions
+        let (ptoken_slot, auth_slot) = match kind {
+            "liq1" | "dec1" => (4usize, 2usize),
+            "repo" => (7, 4),
+            _ => (6, 4),
+        };
+        // reposition does not touch the arrays of the existing range when the position holds no liquidity: what sits in
+        // those two slots is then never read (not a pin to test)
+        if kind == "repo" && (slot == 14 || slot == 15) && pos0.as_ref().map_or(true, |p| p.liquidity == 0) {
+            return XHopOut { line: "skip NotUsed".to_string(), viols, tags: vec!["sub_not_used"] };
+        }
+        // the funder of a reposition is whoever signs for the rent top-up: not a pin
+        if kind == "repo" && slot == 5 {
+            return XHopOut { line: "skip NotPinned".to_string(), viols, tags: vec!["sub_not_pinned"] };
+        }
         // the unsubstituted instruction must be acceptable (else the experiment says nothing)
         let mut control = fx.bank.clone();
         let (cres, cout) = control.execute(&metas, &data);
@@ -1284,9 +1379,9 @@ impl World {
             };
             let forged = k(0x73, slot as u8);
             let mut data = o.data.clone();
-            if kind != "swap" && slot == 6 && data.len() >= 64 {
+            if kind != "swap" && slot == ptoken_slot && data.len() >= 64 {
                 data[32..64].copy_from_slice(stranger.as_ref());
-                m2[4].key = stranger;
+                m2[auth_slot].key = stranger;
             }
             fx.bank.set(forged, fake_owner, o.lamports, data);
             m2[slot].key = forged;
@@ -1297,7 +1392,7 @@ impl World {
         let (res, out) = fx.bank.execute(&m2, &data);
         let line = match res {
             Ok(()) => {
-                if forge > 0 && kind != "swap" && slot == 6 {
+                if forge > 0 && kind != "swap" && slot == ptoken_slot {
                     viols.push(format!("C04 the {} instruction accepted a stranger's signature with a forged position token account owned by another program (variant {})", kind, forge));
                 }
                 viols.push(format!("C15 the {} instruction accepted a {} account in slot {} ({} instead of {})", kind, if forge > 0 { "forged" } else { "look-alike" }, slot, subst, orig));
